@@ -81,9 +81,24 @@ func pickMeta(class string, rng *rand.Rand) metadata.Metadata {
 	}
 }
 
+// the key a DELETE_METADATA entry removes: plain, unicode, or needing JSON escapes (what json.Marshal rewrites: " \\ < > & control characters, U+2028/9)
+func pickDelKey(class string, rng *rand.Rand) string {
+	switch class {
+	case "empty":
+		return []string{"some key", "k"}[rng.Intn(2)]
+	case "unicode":
+		return []string{"ключ €", "💸", "clé-é"}[rng.Intn(3)]
+	default:
+		return []string{"rate<limit>&burst", "\"quoted\"", "back\\slash", "nl\nx\ty", "sep\u2028\u2029", "a\"b\\c<d>&e"}[rng.Intn(6)]
+	}
+}
+
 func pickKey(class string, rng *rand.Rand) string {
 	if class == "none" {
 		return ""
+	}
+	if class == "escapes" {
+		return []string{"ik \"q\" <a>&b \\ ", "ik\u2028x", "ik\n\t"}[rng.Intn(3)] + fmt.Sprint(rng.Intn(100000))
 	}
 	// 255 characters (what the column takes), or longer
 	if rng.Intn(2) == 0 {
@@ -132,9 +147,9 @@ func build(e entry, rng *rand.Rand) *ledger.Log {
 	case "SET_METADATA/TRANSACTION":
 		l = ledger.NewSetMetadataOnTransactionLog(logDate, pickID(e.ID, rng), pickMeta(e.Meta, rng))
 	case "DELETE_METADATA/ACCOUNT":
-		l = ledger.NewDeleteMetadataLog(logDate, ledger.DeleteMetadataLogPayload{TargetType: ledger.MetaTargetTypeAccount, TargetID: acct, Key: "some key"})
+		l = ledger.NewDeleteMetadataLog(logDate, ledger.DeleteMetadataLogPayload{TargetType: ledger.MetaTargetTypeAccount, TargetID: acct, Key: pickDelKey(e.Meta, rng)})
 	case "DELETE_METADATA/TRANSACTION":
-		l = ledger.NewDeleteMetadataLog(logDate, ledger.DeleteMetadataLogPayload{TargetType: ledger.MetaTargetTypeTransaction, TargetID: pickID(e.ID, rng), Key: "k"})
+		l = ledger.NewDeleteMetadataLog(logDate, ledger.DeleteMetadataLogPayload{TargetType: ledger.MetaTargetTypeTransaction, TargetID: pickID(e.ID, rng), Key: pickDelKey(e.Meta, rng)})
 	}
 	return l.WithIdempotencyKey(pickKey(e.Key, rng))
 }
